@@ -15,8 +15,8 @@ import (
 )
 
 type WorldComp struct {
-	Name string
-	Sort string
+	Name   string
+	Sort   string
 	Theory string // theory module that declares the sort (component unavailable unless the module is in use)
 }
 
@@ -34,21 +34,21 @@ type TheoryModule struct {
 }
 
 type Workspace struct {
-	repo      string
-	verif     string
-	prog      *ssa.Program
-	pkgs      []*packages.Package
-	ssaPkgs   map[string]*ssa.Package
-	funcs     map[string]*ssa.Function // pkgpath::relname -> function
-	contracts map[string]*Contract
+	repo          string
+	verif         string
+	prog          *ssa.Program
+	pkgs          []*packages.Package
+	ssaPkgs       map[string]*ssa.Package
+	funcs         map[string]*ssa.Function // pkgpath::relname -> function
+	contracts     map[string]*Contract
 	contractFiles []string
-	prelude   map[string]*Contract
-	world     map[string]*WorldComp
-	worldOrder []string
-	specFuncs map[string]*SpecSig
-	theory    map[string]*TheoryModule
-	loadErrs  []string
-	known     *KnownFile
+	prelude       map[string]*Contract
+	world         map[string]*WorldComp
+	worldOrder    []string
+	specFuncs     map[string]*SpecSig
+	theory        map[string]*TheoryModule
+	loadErrs      []string
+	known         *KnownFile
 }
 
 func loadWorkspace(repo, verif string, patterns []string) (*Workspace, error) {
